@@ -10,7 +10,10 @@ EXPLANATION = (
     "increment d on both branches of the SE(3) norm test, where Q = I for poses (right-multiplicative update) and Q = R_T "
     "for point vertices (world-frame additive update); correspondingly the Jacobian w.r.t. a point vertex is J Q^T. (1)+(2) "
     "give b' = Q b, H' = Q H Q^T with Q orthogonal block-diagonal (assembly itself is C03), hence dx' = Q dx; (4) makes the "
-    "updated transformed graph the transform of the updated graph: the inductive step covers any number of iterations. SE(3) odometry involves four unit-quaternion constraints and is discharged by "
+    "updated transformed graph the transform of the updated graph: the inductive step covers any number of iterations. "
+    "Commute cases additionally run the real optimize() (1..2 iterations, solver stub = deterministic function of the linear "
+    "system) on a graph and on its transform with edges reporting identical errors/Jacobians, and prove that every vertex of "
+    "the second ends at T + (vertex of the first): no step of optimize() may depend on absolute coordinates. SE(3) odometry involves four unit-quaternion constraints and is discharged by "
     "the reduction-certificate route (z3-checked local lemmas) when neither z3 version decides it directly."
 )
 BOUNDS = "8 edge kinds, T and all poses/measurements/offsets symbolic; one inductive step"
@@ -87,6 +90,45 @@ def _equivariance(kind, tkind):
         Q = _rot_of(P, tkind, T) if kind != tkind else None
         d2 = d if Q is None else np.dot(Q, d)
         P.check_eq("boxplus_equivariant", ((T + p) + d2).to_array(), (T + (p + d)).to_array())
+        # the same through the in-place operator the optimizer uses (v.pose += dx)
+        x = (T + p).copy()
+        x += d2
+        y = p.copy()
+        y += d
+        P.check_eq("iadd_equivariant", x.to_array(), (T + y).to_array())
+
+    return fn
+
+
+def _commute(kind, iters):
+    """optimize() commutes with the transform: two graphs G and T.G whose edges report the same (frame-invariant, by the
+    cases above) errors and Jacobians, a solver stub that is a deterministic function of the linear system, the real
+    optimize() on both: every vertex of the second graph must end at T + (vertex of the first)."""
+
+    def fn(P, g):
+        from .graphkit import functional_solver, install_stubs, make_free_edge_class, structure_graph
+
+        np = P.np
+        n = COMPACT[kind]
+        kinds = [kind, kind, kind]
+        edges = [(0, 1), (1, 2), (2, 0)]
+        env = install_stubs(P, g, solver=functional_solver(P) if P.symbolic else None)
+        G1, verts1, eobjs1, ids = structure_graph(P, g, kinds, edges, {0}, symbolic_ids=False, m=n)
+        T = mk_pose(P, g, kind, "T")
+        FreeEdge = make_free_edge_class(g)
+        verts2 = [g.Vertex(v.id, T + v.pose, fixed=v.fixed) for v in verts1]
+        eobjs2 = [FreeEdge(list(e.vertex_ids), e.information, e._err, e._jacs) for e in eobjs1]
+        G2 = g.Graph(eobjs2, verts2)
+        import warnings
+
+        with warnings.catch_warnings():
+            warnings.simplefilter("ignore")
+            r1 = G1.optimize(tol=0.0, max_iter=iters, fix_first_pose=False, verbose=False)
+            r2 = G2.optimize(tol=0.0, max_iter=iters, fix_first_pose=False, verbose=False)
+        P.check("same_iterations", r1.num_iterations == r2.num_iterations)
+        for i, (a, b) in enumerate(zip(verts1, verts2)):
+            P.check_eq("commutes_%d" % i, b.pose.to_array(), (T + a.pose).to_array(), tol=1e-6)
+        P.check_eq("same_final_chi2", r2.final_chi2, r1.final_chi2, tol=1e-6)
 
     return fn
 
@@ -100,4 +142,7 @@ def cases(tier):
         out.append(Case("jac-%s-%s" % ek, _jacobians(ek), timeout=10, old_timeout=20, validate=v, shards=12 if heavy else (3 if ek[1] == "SE3" else 1)))
     for kind, tkind in [("R2", "R2"), ("R3", "R3"), ("SE2", "SE2"), ("SE3", "SE3"), ("R2", "SE2"), ("R3", "SE3")]:
         out.append(Case("equiv-%s-under-%s" % (kind, tkind), _equivariance(kind, tkind), timeout=15, old_timeout=30, validate=v))
+    for kind in ("R2", "R3", "SE2", "SE3"):
+        for iters in (1, 2) if kind in ("R2", "R3") else (1,):
+            out.append(Case("commute-%s-it%d" % (kind, iters), _commute(kind, iters), timeout=15, old_timeout=30, validate=v if kind != "SE3" else 1, val_tol=1e-4, feas_timeout_ms=1500, shards=2 if kind == "SE3" else 1))
     return out
